@@ -51,7 +51,7 @@ impl Command {
             "colorblind" => Command::WithColor(Box::new(color_commands::ColorblindCommand)),
             "set" => Command::WithColor(Box::new(color_commands::SetCommand)),
             "complement" => Command::WithColor(Box::new(color_commands::ComplementCommand)),
-            "mix" => Command::WithColor(Box::new(color_commands::MixCommand::default())),
+            "mix" => Command::Generic(Box::new(color_commands::MixCommand)),
             "to-gray" => Command::WithColor(Box::new(color_commands::ToGrayCommand)),
             "textcolor" => Command::WithColor(Box::new(color_commands::TextColorCommand)),
             "pick" => Command::Generic(Box::new(PickCommand)),
